@@ -8,15 +8,16 @@
 import GherkinVerif.Lemmas.TypedStack
 import GherkinVerif.Gen.ParserTable
 import GherkinVerif.Gen.Grammar
+import GherkinVerif.KDecide
 namespace GV.Lemmas
 
 open GV.Spec
 
 /-- the kernel-evaluated certificate -/
 theorem typedCheck_gen : typedCheck Gen.grammar Gen.parserTable 100000 = true := by
-  decide +kernel
+  kdecide
 
-theorem startRule_gen : Gen.parserTable.startRule = .GherkinDocument := by decide +kernel
+theorem startRule_gen : Gen.parserTable.startRule = .GherkinDocument := by kdecide
 
 theorem events_valid_tree (ks : List Kind) (h : Kind.EOF ∉ ks) (evs : List Ev)
     (he : eventsAbs Gen.parserTable ks = some evs) :
@@ -28,7 +29,7 @@ theorem events_valid_tree (ks : List Kind) (h : Kind.EOF ∉ ks) (evs : List Ev)
 /-- in the grammar's right-hand sides (rules without `!` inlined), `Tags` is preceded by at most
     the `# language` line, is never last, and is followed by what `Spec.tagsAttach` says -/
 theorem attachCheck_gen : attachCheck Gen.grammar .Tags tagsAttach [.Language] = true := by
-  decide +kernel
+  kdecide
 
 theorem tags_attach_forward {t : Tree} (hv : ValidTree Gen.grammar .GherkinDocument t) :
     TagsAttachForward Gen.grammar t := by
